@@ -482,7 +482,8 @@ impl Check for RawBytes {
             7 => vec!["verify".into(), "--equivalence".into(), "strong".into(), "-n".into(), "3".into(), "--time-limit".into(), "1".into(), fs.clone(), fs.clone()],
             // with proof search and a prover that misbehaves (see below): one instance, and two
             8 => vec!["verify".into(), "--equivalence".into(), "strong".into(), "--time-limit".into(), "1".into(), fs.clone(), okl.clone()],
-            _ => vec!["verify".into(), "--equivalence".into(), "external".into(), "-n".into(), "2".into(), "--time-limit".into(), "1".into(), okl.clone(), fs.clone(), oku.clone()],
+            // (instances and cores per prover both automatic in half of the cases)
+            _ => vec!["verify".into(), "--equivalence".into(), "external".into(), "-n".into(), if case.bytes.len() % 2 == 0 { "0".into() } else { "2".into() }, "-m".into(), "0".into(), "--time-limit".into(), "1".into(), okl.clone(), fs.clone(), oku.clone()],
         };
         std::fs::write(dir.join("empty.lp"), "% no rules\n").unwrap();
         let argv: Vec<&str> = args.iter().map(|s| s.as_str()).collect();
